@@ -228,6 +228,9 @@ def target_times(m):
     out = list(ts)
     for a, b in zip(ts, ts[1:]):
         out += [(a + b) / 2, a + (b - a) / 4, a + 3 * (b - a) / 4]
+    # very close to a recorded instant without being on it: still an interpolation, not the raw sample
+    for a, b in zip(ts[1:], ts[2:]):
+        out += [a + 1e-6, b - 1e-6, a + 1e-9 * (b - a) + 3e-8]
     return out
 
 
